@@ -767,8 +767,8 @@ def families(tier, want=None):
             for pa, pb in mp:
                 A, B_ = fam_dict(n, m, pa, pb)
                 big = n + m >= 5
-                if quick and big and (pa, pb) != ('a', 'a'):
-                    continue                      # quick: the 5- and 6-key pairs only with one length pattern
+                if big and (pa, pb) != ('a', 'a'):
+                    continue                      # the 5- and 6-key pairs only with one length pattern (path count)
                 strategies = ['none']
                 if not (quick and n + m >= 5):
                     strategies.append('auto')     # 5-6 keys under 'auto': 2k-30k paths, thorough only
@@ -846,7 +846,7 @@ def tree_jobs(tier, want=None, extra=None, skip=None):
                 j = dict(fam=name, A=A, B=B_, dict=st, list=lm, weight=weight,
                          alpha=3 if tier == 'quick' else 4)
                 if weight >= 20:
-                    j['split_depth'] = 24
+                    j['split_depth'] = 24 if weight < 37 else 45
                 if extra:
                     j['extra'] = dict(extra)
                 jobs.append(j)
